@@ -421,10 +421,30 @@ pub fn unascii85(raw: &[u8]) -> Option<Vec<u8>> {
     Some(out)
 }
 
-/// Predictor encoding of `data` in rows of `row` bytes (one colour, 8 bits per component):
+/// How a stream with rows of `row` bytes declares its predictor geometry: (colours, bits per
+/// component, columns, bytes per pixel). A pure function of the stream's object number, so that the
+/// writer and the strict reader agree without another recorded quantity and without another random
+/// draw: one third of the even rows are declared as 16-bit samples, one third as two colours of 8
+/// bits (both: left neighbour two bytes away), one sixth of all rows as 4-bit samples (left neighbour
+/// one byte away, twice as many columns); the rest as one colour of 8 bits. The TIFF predictor keeps
+/// 8-bit samples (ISO 32000-1 allows more, the library states that it does not).
+pub fn geometry(num: u32, row: usize, predictor: u8) -> (i64, i64, i64, usize) {
+    let png = predictor >= 10;
+    if row % 2 == 0 && num % 3 == 1 && png {
+        (1, 16, row as i64 / 2, 2)
+    } else if row % 2 == 0 && num % 3 == 2 {
+        (2, 8, row as i64 / 2, 2)
+    } else if num % 6 == 3 && png {
+        (1, 4, row as i64 * 2, 1)
+    } else {
+        (1, 8, row as i64, 1)
+    }
+}
+
+/// Predictor encoding of `data` in rows of `row` bytes whose pixels are `bpp` bytes wide:
 /// 2 = TIFF horizontal differencing; 10..=14 = PNG None / Sub / Up / Average / Paeth on every row;
 /// 15 = PNG "optimum": the five PNG filters in rotation. `data.len()` is a multiple of `row`.
-pub fn predict(data: &[u8], row: usize, predictor: u8) -> Vec<u8> {
+pub fn predict(data: &[u8], row: usize, predictor: u8, bpp: usize) -> Vec<u8> {
     assert!(row > 0 && data.len() % row == 0);
     let mut out = vec![];
     let zero = vec![0u8; row];
@@ -432,16 +452,16 @@ pub fn predict(data: &[u8], row: usize, predictor: u8) -> Vec<u8> {
         let prev: &[u8] = if k == 0 { &zero } else { &data[(k - 1) * row..k * row] };
         if predictor == 2 {
             for i in 0..row {
-                out.push(cur[i].wrapping_sub(if i > 0 { cur[i - 1] } else { 0 }));
+                out.push(cur[i].wrapping_sub(if i >= bpp { cur[i - bpp] } else { 0 }));
             }
             continue;
         }
         let tag = if predictor == 15 { (k % 5) as u8 } else { predictor - 10 };
         out.push(tag);
         for i in 0..row {
-            let a = if i > 0 { cur[i - 1] } else { 0 } as i32;
+            let a = if i >= bpp { cur[i - bpp] } else { 0 } as i32;
             let b = prev[i] as i32;
-            let c = if i > 0 { prev[i - 1] } else { 0 } as i32;
+            let c = if i >= bpp { prev[i - bpp] } else { 0 } as i32;
             let pred = match tag {
                 0 => 0,
                 1 => a,
@@ -466,7 +486,7 @@ pub fn predict(data: &[u8], row: usize, predictor: u8) -> Vec<u8> {
 }
 
 /// Inverse of `predict` (for the strict reader).
-pub fn unpredict(data: &[u8], row: usize, predictor: u8) -> Option<Vec<u8>> {
+pub fn unpredict(data: &[u8], row: usize, predictor: u8, bpp: usize) -> Option<Vec<u8>> {
     let mut out: Vec<u8> = vec![];
     let step = if predictor == 2 { row } else { row + 1 };
     if row == 0 || data.len() % step != 0 {
@@ -476,16 +496,16 @@ pub fn unpredict(data: &[u8], row: usize, predictor: u8) -> Option<Vec<u8>> {
         let start = out.len();
         if predictor == 2 {
             for i in 0..row {
-                let a = if i > 0 { out[start + i - 1] } else { 0 };
+                let a = if i >= bpp { out[start + i - bpp] } else { 0 };
                 out.push(chunk[i].wrapping_add(a));
             }
             continue;
         }
         let tag = chunk[0];
         for i in 0..row {
-            let a = if i > 0 { out[start + i - 1] } else { 0 } as i32;
+            let a = if i >= bpp { out[start + i - bpp] } else { 0 } as i32;
             let b = if k > 0 { out[start - row + i] } else { 0 } as i32;
-            let c = if k > 0 && i > 0 { out[start - row + i - 1] } else { 0 } as i32;
+            let c = if k > 0 && i >= bpp { out[start - row + i - bpp] } else { 0 } as i32;
             let pred = match tag {
                 0 => 0,
                 1 => a,
@@ -718,7 +738,7 @@ pub fn write_doc(spec: &DocSpec) -> Written {
                 let row = w[0] + w[1] + w[2];
                 let use_predictor = *predictor != 0 && matches!(filter, StmFilter::FlateStored | StmFilter::Lzw | StmFilter::HexFlate) && row > 0;
                 if use_predictor {
-                    data = predict(&data, row, *predictor);
+                    data = predict(&data, row, *predictor, geometry(*num, row, *predictor).3);
                 }
                 let (enc, fname) = apply_filter(*filter, &data);
                 let mut d: Dict = vec![("Type".into(), Val::name("XRef"))];
@@ -732,7 +752,15 @@ pub fn write_doc(spec: &DocSpec) -> Written {
                     d.push(("Filter".into(), filter_val(f)));
                 }
                 if use_predictor {
-                    let parms = Val::dict(vec![("Predictor", Val::Int(*predictor as i64)), ("Columns", Val::Int(row as i64))]);
+                    let (colors, bpc, columns, _) = geometry(*num, row, *predictor);
+                    let mut parms = vec![("Predictor", Val::Int(*predictor as i64)), ("Columns", Val::Int(columns))];
+                    if colors != 1 {
+                        parms.push(("Colors", Val::Int(colors)));
+                    }
+                    if bpc != 8 {
+                        parms.push(("BitsPerComponent", Val::Int(bpc)));
+                    }
+                    let parms = Val::dict(parms);
                     d.push(("DecodeParms".into(), if *filter == StmFilter::HexFlate { Val::Arr(vec![Val::Null, parms]) } else { parms }));
                 }
                 apply_overrides(&mut d);
@@ -918,7 +946,7 @@ pub fn strict_read(bytes: &[u8], spec: &DocSpec, k: usize) -> Result<BTreeMap<u3
                     }
                 };
                 let row = w[0] + w[1] + w[2];
-                let data = if *predictor != 0 && matches!(filter, StmFilter::FlateStored | StmFilter::Lzw | StmFilter::HexFlate) && row > 0 { unpredict(&data, row, *predictor).ok_or("predictor")? } else { data };
+                let data = if *predictor != 0 && matches!(filter, StmFilter::FlateStored | StmFilter::Lzw | StmFilter::HexFlate) && row > 0 { unpredict(&data, row, *predictor, geometry(*num, row, *predictor).3).ok_or("predictor")? } else { data };
                 let size = geti(b"/Size ").ok_or("size")?;
                 let index: Vec<u64> = match find_from(head, 0, b"/Index [") {
                     Some(i) => {
